@@ -202,3 +202,61 @@ class plan_rechunk:
             cfg = rng.choice(cfgs)
             yield {"old_chunks": (a0, a1), "new_chunks": (b0, b1), "itemsize": cfg[0], "threshold": cfg[1],
                    "block_size_limit": cfg[2], "degree_limit": cfg[3]}
+
+
+def _mtn_hints(result, desired_chunks, max_number):
+    """proof script for the closed form: k = (n*w // M) // w equals n // M, and adjust = n - k*M"""
+    n = S.slen(desired_chunks)
+    w = S.at(desired_chunks, 0)
+    M = max_number
+    dw = S.div(n * w, M)
+    k = S.div(dw, w)
+    r = n - k * M
+    return {
+        "mono-a": S.Implies(S.And(k * M >= n + 1, w >= 1), (k * M) * w >= (n + 1) * w),
+        "chain-a": S.And(k * w <= dw, (k * w) * M <= dw * M, dw * M <= n * w),
+        "k-lower": k * M <= n,
+        "mono-b": S.Implies(S.And((k + 1) * M <= n, w >= 1), ((k + 1) * M) * w <= n * w),
+        "chain-b": S.And(dw + 1 <= (k + 1) * w, (dw + 1) * M <= ((k + 1) * w) * M, n * w < (dw + 1) * M),
+        "k-upper": n < (k + 1) * M,
+        "k-nonneg": k >= 0,
+        "factor": n * w - M * (w * k) == w * r,
+        "mult-r": ("lemma", "mod_multiple", r, w),
+        "adjust": S.div(n * w - M * (w * k), w) == r,
+        "mult-k": ("lemma", "mod_multiple", k, w),
+        "mult-k1": ("lemma", "mod_multiple", k + 1, w),
+        "mult-1": ("lemma", "mod_multiple", S._i(1) if S.z3 is not None else 1, w),
+    }
+
+
+@contract(f"{RC}::merge_to_number", spec="uniform", props=["C15"])
+class merge_to_number__uniform:
+    """uniform input (the closed-form branch): exactly max_number blocks, total kept, every block a whole number of input
+    blocks, sizes differ by at most one input block"""
+    params = {"desired_chunks": "seq", "max_number": "int"}
+    result = "seq"
+    post_hints = _mtn_hints
+
+    def requires(desired_chunks, max_number):
+        return S.And(max_number >= 1, S.slen(desired_chunks) >= 1, S.at(desired_chunks, 0) >= 1,
+                     S.forall_idx(desired_chunks, lambda j: S.at(desired_chunks, j) == S.at(desired_chunks, 0)))
+
+    def facts(desired_chunks, max_number):
+        return [("uniform_prefix", desired_chunks)]
+
+    def ensures(result, desired_chunks, max_number):
+        w = S.at(desired_chunks, 0)
+        n = S.slen(desired_chunks)
+        return {
+            "count": S.slen(result) == S.min_(n, max_number),
+            "sum": S.ssum(result) == n * w,
+            # every block is a whole number of input blocks: k*w or (k+1)*w with k = n // min(n, max_number)
+            "whole-blocks": S.forall_idx(result, lambda j: S.Or(S.at(result, j) == w * S.div(n, S.min_(n, max_number)),
+                                                                S.at(result, j) == w * (S.div(n, S.min_(n, max_number)) + 1))),
+        }
+
+    def domain(tier, rng):
+        for w in (1, 2, 3, 7):
+            for n in range(1, 14 if tier == "quick" else 40):
+                for m in range(1, 16):
+                    yield {"desired_chunks": (w,) * n, "max_number": m}
